@@ -7,7 +7,7 @@ from common import run_fjv, workdir, pmap
 
 LEVEL = "exploration"
 COQ_TARGETS = ("props/C14.vo",)
-THEOREMS = ["C14_apply_order_is_seqno_order_partial", "C14_nothing_applied_is_lost_partial"]
+THEOREMS = ["C14_apply_order_is_seqno_order_partial", "C14_nothing_applied_is_lost_partial", "C14_journal_order_is_seqno_order"]
 sys.setrecursionlimit(100000)
 KEYS = ["61", "62", "63", "64"]
 
